@@ -147,3 +147,23 @@ def then(pieces_f, pieces_g):
     """reference of g after f (both piece lists, g over f's output space)"""
     from core import compose_pieces, pieces_after
     return compose_pieces(pieces_f, lambda aff: pieces_after(pieces_g, aff))
+
+
+def lift(pa, pb, op):
+    """point-wise lifting of a coefficient-wise affine operator to two piece lists over the same input"""
+    out = []
+    for p in pa:
+        for q in pb:
+            if p.val is None or q.val is None:
+                val = None
+            else:
+                val = aff_op(p.val, q.val, op)
+            out.append(Piece(p.conds + q.conds, val, tag=(p.node, q.node)))
+    return out
+
+
+def aff_op(a, b, op):
+    f = {"add": lambda x, y: x + y, "sub": lambda x, y: x - y, "mul": lambda x, y: x * y, "div": lambda x, y: x / y}[op]
+    if a.outdim != b.outdim or a.n != b.n:
+        raise ValueError("shape mismatch")
+    return Aff([[f(x, y) for x, y in zip(r, s)] for r, s in zip(a.M, b.M)], [f(x, y) for x, y in zip(a.c, b.c)], a.n)
